@@ -19,6 +19,7 @@ import (
 	"math/big"
 	"os"
 	"os/exec"
+	"os/signal"
 	"path/filepath"
 	"regexp"
 	"runtime"
@@ -349,11 +350,29 @@ func (w *goWriter) drain() {
 // process-mode writer: a child process performs the Set; the hook in the child reports each point on a pipe
 // and waits for a command byte ('c' continue, 'k' kill yourself).
 type procWriter struct {
-	root string
-	cmd  *exec.Cmd
-	ack  *os.File // child -> parent
-	ctl  *os.File // parent -> child
-	dead bool
+	root  string
+	limit bool // run the child under a file size limit (its write to the temporary file fails)
+	cmd   *exec.Cmd
+	ack   *os.File // child -> parent
+	ctl   *os.File // parent -> child
+	dead  bool
+}
+
+// fail: the child runs under a file size limit smaller than the entry; released after "created", its write fails, the store
+// cleans up (hook point "return") and reports the error
+func (w *procWriter) fail() error {
+	if err := w.step("return"); err != nil {
+		return err
+	}
+	if _, err := w.ctl.Write([]byte("c")); err != nil {
+		return err
+	}
+	if err := w.wait("error"); err != nil {
+		return err
+	}
+	w.cmd.Wait()
+	w.dead = true
+	return nil
 }
 
 func (w *procWriter) begin(url string, wn string, j int) error {
@@ -363,7 +382,11 @@ func (w *procWriter) begin(url string, wn string, j int) error {
 	must(err)
 	self, err := os.Executable()
 	must(err)
-	w.cmd = exec.Command(self, "-prop", "crl-child", "-scratch", w.root, "-lie", fmt.Sprintf("%s|%s|%d", url, wn, j))
+	arg := fmt.Sprintf("%s|%s|%d", url, wn, j)
+	if w.limit {
+		arg += "|limit"
+	}
+	w.cmd = exec.Command(self, "-prop", "crl-child", "-scratch", w.root, "-lie", arg)
 	w.cmd.ExtraFiles = []*os.File{ackW, ctlR}
 	w.cmd.Stderr = os.Stderr
 	must(w.cmd.Start())
@@ -425,6 +448,11 @@ func runCRLChild() int {
 	ctl := os.NewFile(4, "ctl")
 	cache, err := crl.NewFileCache(*flagScratch)
 	must(err)
+	if len(parts) > 3 && parts[3] == "limit" {
+		// no file of this process may grow beyond 64 bytes: the write of the entry is cut short and fails (EFBIG)
+		signal.Ignore(syscall.SIGXFSZ)
+		must(syscall.Setrlimit(syscall.RLIMIT_FSIZE, &syscall.Rlimit{Cur: 64, Max: 64}))
+	}
 	crl.SetVerifWriteHook(func(point, temp, path string) {
 		fmt.Fprintf(ack, "%s\n", point)
 		b := make([]byte, 1)
@@ -485,6 +513,11 @@ func runCRLSchedules() int {
 		// its Sets (as a verifier re-fetching an unchanged CRL does)
 		mode := "goroutine"
 		m := mix(*flagSeed, c.ID, "mode") % 4
+		for _, st := range in.Steps {
+			if st.Act == "WFail" {
+				m = 0 // a failing write can be brought about in a process of its own only
+			}
+		}
 		switch {
 		case m == 0:
 			mode = "process"
@@ -546,7 +579,15 @@ func replaySchedule(id int, in SchedIn, mode string) []schedLine {
 			jn := jobs[st.Actor]
 			switch mode {
 			case "process":
-				h = &procWriter{root: root}
+				pw := &procWriter{root: root}
+				// will this store fail? (the next step of this writer says so)
+				for _, later := range in.Steps[k+1:] {
+					if later.Actor == st.Actor {
+						pw.limit = later.Act == "WFail"
+						break
+					}
+				}
+				h = pw
 			case "instances":
 				if inst[st.Actor] == nil {
 					inst[st.Actor], err = crl.NewFileCache(root)
@@ -576,6 +617,12 @@ func replaySchedule(id int, in SchedIn, mode string) []schedLine {
 			serr = writers[st.Actor].step("done")
 		case "WCrash":
 			writers[st.Actor].crash()
+		case "WFail":
+			if pw, ok := writers[st.Actor].(*procWriter); ok {
+				serr = pw.fail()
+			} else {
+				serr = errors.New("harness: a failing write needs a process writer")
+			}
 		case "RBegin":
 			readerURL[st.Actor] = st.Arg
 		case "ROpen":
